@@ -73,6 +73,15 @@ CLAIMED["C03"] = dict(
          "(symbolic offset beyond the tolerance), other cell counts, incompatible nvdim, unsupported types.",
     ref="DESIGN.md section 2 / C03",
 )
+CLAIMED["C05"] = dict(
+    text="Field.grad/div/curl/laplace run on meshes with symbolic anisotropic cells and position: (a) every component is a "
+         "general polynomial of total degree <=2 with symbolic coefficients sampled at the closed-form centres and the result "
+         "must equal the analytic derivative at every cell, with components paired to axes through every permutation of the "
+         "component-to-axis mapping (custom labels, renamed dimensions, mapping dictionaries written in another key order, "
+         "assigned late, labels renamed afterwards); (b) curl(grad f)=0 and div(curl v)=0 for completely free cell values, "
+         "open and periodic; (c) op(rotate90(f)) == rotate90(op(f)) cell by cell for free values; (d) refusals.",
+    ref="DESIGN.md section 2 / C05",
+)
 PENDING_REASON = "check not built yet in this round (planned: DESIGN.md section 2); not claimed until it runs green"
 NA = {}
 
